@@ -11,7 +11,7 @@ ASSUME = [
     "RequestResponseHandle); commands are logged before they are given and events after they were observed, all under "
     "one mutex per network, so the order of a trace is consistent with causality",
     "silence is judged at a deadline of 3 x (connection-open + substream-open + 2 x request timeout + largest scripted "
-    "response delay) + 1 s after the last scripted step; a network during whose life timers fired more than a quarter of "
+    "response delay) + 1 s after the last scripted step; a network during whose life timers fired more than an eighth of "
     "that bound late is discarded and re-run (never judged)",
     "concurrently outstanding inbound requests = shown to the responder's user and not yet answered / rejected by it",
     "requests shorter than 19 bytes cannot carry a nonce; scripts contain at most one such request per size and "
@@ -21,8 +21,10 @@ ASSUME = [
     "substream is reported at most once and never after its connection was reported closed",
 ]
 
-MC_LINES = ["SPECIFICATION Spec", "INVARIANTS MonOK QuiesceOK BooksOK BoundOK", "VIEW View", "CHECK_DEADLOCK FALSE"]
-BASEC = dict(MaxConc=1, MaxConn=2, MaxCancel=1, DialOpts="<- BothOpts", Fixed="<- FixedNone", Wedge=False, KeepHist=False)
+# the model of the current code (pending_dials is a queue per peer since /repo e9eba69) must satisfy the untagged
+# quiescence obligation: nothing is excused by a known-defect tag
+MC_LINES = ["SPECIFICATION Spec", "INVARIANTS MonOK QuiesceStrict BooksOK BoundOK", "VIEW View", "CHECK_DEADLOCK FALSE"]
+BASEC = dict(MaxConc=1, MaxConn=2, MaxCancel=1, DialOpts="<- BothOpts", Fixed="<- FixedD9", Wedge=False, KeepHist=False)
 MV = ["CONSTANTS", "  p2 = p2", "  p3 = p3"]
 
 
@@ -32,10 +34,8 @@ def mc_configs(ctx):
     if ctx.quick():
         return [("1peer-3req", one, MC_LINES), ("2peers-2req", two, MC_LINES + ["SYMMETRY Sym"])]
     return [("1peer-3req", one, MC_LINES), ("2peers-2req", two, MC_LINES + ["SYMMETRY Sym"]),
-            ("1peer-3req-repaired", dict(one, Fixed="<- FixedD9"), [l.replace("QuiesceOK", "QuiesceStrict") for l in MC_LINES]),
             ("1peer-3req-nolimit-2cancel", dict(one, MaxConc="<- NoLimit", MaxCancel=2, DialOpts="<- DialOnly"), MC_LINES),
-            ("2peers-2req-wedge", dict(two, Wedge=True, DialOpts="<- DialOnly"), MC_LINES + ["SYMMETRY Sym"]),
-            ("2peers-3req", dict(BASEC, Peers="<- TwoPeers", MaxReq=3, MaxCancel=1, DialOpts="<- DialOnly", MaxConn=2),
+            ("2peers-3req-nocancel", dict(BASEC, Peers="<- TwoPeers", MaxReq=3, MaxCancel=0, DialOpts="<- DialOnly", MaxConn=2),
              MC_LINES + ["SYMMETRY Sym"])]
 
 
@@ -44,7 +44,7 @@ def mc_runs(ctx):
     for name, consts, lines in mc_configs(ctx):
         r = tlc_mc(ctx, "ReqRespMC.tla", write_cfg(ctx, "mc_%s.cfg" % name, consts, lines + MV), workers=8, timeout=2400)
         if not r["ok"]:
-            raise ToolError("ReqRespMC violates an invariant outside the tagged known-defect path in config %s; the model "
+            raise ToolError("ReqRespMC violates an invariant in config %s; the model "
                             "must be corrected or the counterexample replayed:\n%s" % (name, r.get("error", r["out"][-3000:])))
         out.append({k: r[k] for k in ("transitions", "distinct", "depth", "wall_s") if k in r})
         out[-1]["cfg"] = name
@@ -93,6 +93,8 @@ def judge(ctx, lines, by_id):
     for r in rejects:
         seg, idx = r
         hdr = json.loads(seg[0])
+        if r.reason.startswith("harness:") or r.reason == "unconsumed":
+            raise ToolError("the recorded trace is malformed (%s) at %s" % (r.reason, seg[idx - 1][:300]))
         for sig in ru.classify(seg, idx, r.reason):
             violations.append({"sig": sig, "what": "%s (scenario %s from %s) at %s" % (r.reason, hdr.get("id"), hdr.get("src"), seg[idx - 1][:300]),
                                "replay_obj": {"property": "C13", "reason": r.reason, "signature": sig,
@@ -145,9 +147,12 @@ def check(ctx):
         "harness": {k: summ[k] for k in summ if k != "setup_error_sample"},
         "event_kinds": kinds,
         "rejected_executions": len(rejects),
-        "impl_divergences": 0,
+        "impl_divergences": None,
         "exhaustive": False,
     }
+    ctx.notes.append("MODE=impl trace validation is not run: explaining a recorded network by ReqRespMC needs silent steps "
+                     "for every protocol / manager / connection-task action; measured 1.8e7 states for 5 executions. The "
+                     "spec->code direction is covered by scripts derived from ReqRespMC behaviours instead.")
     return conclude(ctx, "model_checking", cov, violations, ASSUME)
 
 
@@ -171,11 +176,11 @@ def replay(ctx, path):
 def selftest(ctx):
     ok = True
     # (b) negative model: without the known-defect tag TLC must find the lost request itself
-    neg = dict(BASEC, Peers="<- OnePeer", MaxReq=2)
-    r = tlc_mc(ctx, "ReqRespMC.tla", write_cfg(ctx, "neg.cfg", neg, [l.replace("QuiesceOK", "QuiesceStrict") for l in MC_LINES] + MV),
+    neg = dict(BASEC, Peers="<- OnePeer", MaxReq=2, Fixed="<- FixedNone")   # pending_dials as the one-slot map it was before e9eba69
+    r = tlc_mc(ctx, "ReqRespMC.tla", write_cfg(ctx, "neg.cfg", neg, MC_LINES + MV),
                workers=4, timeout=600, expect_violation=True)
     found = (not r["ok"]) and "QuiesceStrict is violated" in r["out"]
-    log("selftest model: unrepaired pending_dials map vs QuiesceStrict -> %s" % ("violated (expected)" if found else "NOT violated"))
+    log("selftest model: pending_dials as a one-slot map (code before e9eba69) vs QuiesceStrict -> %s" % ("violated (expected)" if found else "NOT violated"))
     ok &= found
     # mutated copies of the model: one guard / update removed
     muts = [
@@ -205,8 +210,7 @@ def selftest(ctx):
         ok &= hit
     # (a) binding demonstration on recorded executions of real nodes
     cargo_build(ctx, ["reqresp"])
-    good = [s for s in ru.shape_scenarios(ctx.seed) if "dial-burst" not in s["src"] and "dial-then" not in s["src"]
-            and s["perturb"] == 0][:40]
+    good = [s for s in ru.shape_scenarios(ctx.seed) if s["perturb"] == 0][:40]
     summ, lines = run_harness(ctx, good, tag="g")
     _, _, rej = validate_all(ctx, "ReqRespTrace.tla", "ReqRespTrace.cfg", lines)
     log("selftest: %d recorded networks, %d rejected as recorded" % (summ["networks"], len(rej)))
